@@ -240,7 +240,7 @@ class XPathToken(Token[ta.XPathTokenType]):
         else:
             self.parser.check_variables(context.variables)
 
-            for result in self.select_flatten(context):
+            for result in self.iter_guarded(self.select_flatten(context)):
                 if not isinstance(result, XPathNode):
                     yield result
                 elif isinstance(result, NamespaceNode):
@@ -256,6 +256,17 @@ class XPathToken(Token[ta.XPathTokenType]):
                         yield result.value
                 else:
                     yield result.value
+
+    def iter_guarded(self, results: Iterator[Any]) -> Iterator[Any]:
+        """
+        Iterates the results of an evaluation converting the interpreter's
+        recursion limit error to an XPath dynamic error.
+        """
+        try:
+            yield from results
+        except RecursionError:
+            msg = "the evaluation exceeds the maximum recursion depth"
+            raise self.error('FOER0000', msg) from None
 
     def get_results(self, context: ta.ContextType) -> \
             'list[ta.ResultType] | ta.AtomicType | XPathFunction':
